@@ -481,6 +481,9 @@ func Run(args []string) {
 					r.Fail(key, c, "%s: the request goroutine panicked in %s (recovered by the server, answered %s)", desc, site, resultLine)
 				default:
 					r.Count("outcome_"+strings.Fields(resultLine)[1], 1)
+					if c.Class == "int31" || c.Class == "garble-mid" {
+						r.Sample(map[string]any{"case": c, "result": resultLine})
+					}
 				}
 			}
 		}()
